@@ -155,6 +155,11 @@ M = [
  ('inf-scale-ignored', 'sampling_method.py', "            opti.subject_to(self.eval_at_control(stage, c_spline, k), scale=scale, meta=meta)", "            opti.subject_to(self.eval_at_control(stage, c_spline, k), meta=meta)", ['C14']),
  ('inf-scale-ignored-dc', 'direct_collocation.py', "self.add_inf_constraints(stage, opti, c, k, i, meta, scale=args[\"scale\"])", "self.add_inf_constraints(stage, opti, c, k, i, meta)", ['C14']),
  ('bspline-on-free-knots-accepted', 'sampling_method.py', "            if isinstance(self.time_grid, FreeGrid) and (stage.variables['bspline'] or stage.parameters['bspline']):\n", "            if False:\n", ['C17']),
+ # --- mechanisms repaired after batch 11
+ ('substage-guess-refresh-own-stage-only', 'stage.py', "            for s in self.master.iter_stages(include_self=True):\n                if not hasattr(s._method, 'set_initial_all'): continue", "            for s in [self]:\n                if not hasattr(s._method, 'set_initial_all'): continue", ['C09']),
+ ('repeated-guess-keeps-position', 'stage.py', "            self._initial.move_to_end(var, last=not priority)\n", "            if priority: self._initial.move_to_end(var, last=False)\n", ['C10']),
+ ('failed-transcription-reused', 'ocp.py', "                self._original._set_transcribed(False)\n                raise\n", "                raise\n", ['C10']),
+ ('vector-inf-constraint-accepted', 'sampling_method.py', "        if not c.is_scalar():\n            raise Exception(\"A grid='inf' constraint must be scalar-valued", "        if False:\n            raise Exception(\"A grid='inf' constraint must be scalar-valued", ['C15']),
 ]
 
 def main():
